@@ -3,6 +3,7 @@ package props
 import (
 	"fmt"
 	"go/token"
+	"go/types"
 	"strings"
 
 	"golang.org/x/tools/go/ssa"
@@ -18,6 +19,8 @@ func init() {
 		Assumptions: []string{"resource.Collection/Value semantics (C01/C02)"},
 		Run:         runC19,
 		Controls: []Control{
+			{Name: "update-mode-writes-without-options", File: "pkg/trait/electricpb/model.go", Old: "m.modes.Update(mode.Id, mode, opts...)", New: "m.modes.Update(mode.Id, mode)", Expect: "R19.8"},
+			{Name: "electric-defaults-after-callers-options", File: "pkg/trait/electricpb/model_opts.go", Old: "\targs.apply(DefaultModelOptions...)\n\targs.apply(opts...)\n", New: "\targs.apply(opts...)\n\targs.apply(DefaultModelOptions...)\n", Expect: "R19.7"},
 			{Name: "update-mode-rewrites-the-mask-after-the-check", File: "pkg/trait/electricpb/model.go", Old: "\tmsg, err := m.modes.Update(mode.Id, mode, opts...)", New: "\tmsg, err := m.modes.Update(mode.Id, mode, append(opts[:len(opts):len(opts)], resource.WithUpdateMask(nil))...)", Expect: "R19.2"},
 			{Name: "default-id-interceptor-on-modes", File: "pkg/trait/electricpb/model_opts.go", Old: "var DefaultModelOptions = []resource.Option{", New: "var _ = resource.WithIDInterceptor(func(s string) string { return s })\n\nvar DefaultModelOptions = []resource.Option{", Expect: "R19.6"},
 			{Name: "updatemode-without-lock", File: "pkg/trait/electricpb/model.go", Old: "func (m *Model) UpdateMode(mode *traits.ElectricMode, opts ...resource.WriteOption) (*traits.ElectricMode, error) {\n\tm.mu.Lock()\n\tdefer m.mu.Unlock()\n", New: "func (m *Model) UpdateMode(mode *traits.ElectricMode, opts ...resource.WriteOption) (*traits.ElectricMode, error) {\n", Expect: "R19.1"},
@@ -47,6 +50,12 @@ func runC19(c *an.Ctx) {
 	r193(c)
 	r194(c)
 	r195(c)
+	rDefaultsFirst(c, "R19.7", "pkg/trait/electricpb")
+	c.Min("R19.7", 1)
+	rWriteOptsForwarded(c, "R19.8", "pkg/trait/electricpb")
+	c.Min("R19.8", 3)
+	r0112(c, "R19.9") // allow_missing, create-if-absent, expected checks: an option does what its argument says (shared with R01.12)
+	c.Min("R19.9", 60)
 	c.Min("R19.1", 8)
 	c.Min("R19.2", 2)
 	c.Min("R19.3", 3)
@@ -755,4 +764,75 @@ func r192mask(c *an.Ctx) {
 				"the options handed to modes.Update contain a mask option added here ("+bad+"): the normal-mode check was made against the caller's mask (an empty mask writes nothing, so the check is skipped) while the collection applies another one (a full update): a second normal mode is stored")
 		})
 	}
+}
+
+// rWriteOptsForwarded: a model's write function performs its resource write with the options it was given. The
+// update mask, the expected-value checks and the interceptors of the caller are part of the write; a function that
+// reads them for its own guard (`ComputeWriteConfig(opts...)`) but writes without them turns a masked update into
+// a whole-message replace - fields the mask did not name (electric: `normal` carried along in the message) are
+// stored. Every Value.Set / Collection.Update/Add/Delete in a function that takes ...resource.WriteOption receives
+// a list that derives from that parameter.
+func rWriteOptsForwarded(c *an.Ctx, rule, prefix string) {
+	n := 0
+	for _, fn := range c.Prog.FuncsIn(prefix) {
+		if c.Prog.IsGenerated(fn.Pos()) || fn.Parent() != nil || !fn.Signature.Variadic() || len(fn.Params) == 0 || strings.HasSuffix(c.Prog.RelFile(fn.Pos()), "_test.go") {
+			continue
+		}
+		vp := fn.Params[len(fn.Params)-1]
+		if sl, isSl := vp.Type().Underlying().(*types.Slice); !isSl || !strings.HasSuffix(an.NamedTypeName(sl.Elem()), "pkg/resource.WriteOption") {
+			continue
+		}
+		ord := 0
+		an.Instrs(fn, func(in ssa.Instruction) {
+			call, ok := in.(*ssa.Call)
+			if !ok {
+				return
+			}
+			cn := an.CalleeName(call)
+			isWrite := false
+			for _, w := range []string{"pkg/resource.Value).Set", "pkg/resource.Collection).Update", "pkg/resource.Collection).Add", "pkg/resource.Collection).Delete"} {
+				if strings.HasSuffix(cn, w) {
+					isWrite = true
+				}
+			}
+			if !isWrite {
+				return
+			}
+			ord++
+			n++
+			derives := false
+			seen := map[ssa.Value]bool{}
+			var visit func(v ssa.Value)
+			visit = func(v ssa.Value) {
+				if v == nil || seen[v] {
+					return
+				}
+				seen[v] = true
+				for _, s := range localValues(v, 0) {
+					if s == ssa.Value(vp) {
+						derives = true
+					}
+					switch x := s.(type) {
+					case *ssa.Call:
+						// append(...) and options computed from the caller's (m.withComputed(calcArgs(opts...)))
+						for _, a := range x.Call.Args {
+							visit(a)
+						}
+					case *ssa.Slice:
+						visit(x.X)
+						for _, e := range variadicElems(x) {
+							visit(e)
+						}
+					case *ssa.Extract:
+						visit(x.Tuple)
+					}
+				}
+			}
+			visit(call.Call.Args[len(call.Call.Args)-1])
+			c.SawFunc(an.FuncName(fn))
+			c.Check(derives, rule, fmt.Sprintf("%s|write #%d is made with the caller's options", an.FuncName(fn), ord), call.Pos(), "the option list derives from the function's own ...WriteOption",
+				"the resource write is made without the options the function was given: the caller's update mask, preconditions and interceptors are dropped, so a masked update replaces the whole message")
+		})
+	}
+	c.Count("writes_in_option_taking_functions", n)
 }
